@@ -829,6 +829,84 @@ func C17(c *core.Ctx) {
 		}
 		c.Decide(bad == "" && nLit >= 2, "R17.5", "every-outpkt-names-incoming-face", "-", fmt.Sprintf("%d OutPkt constructions, each with a non-nil InFace (IdPtr, address of a local, or a nil-checked field)", nLit), "an OutPkt is built without a (provably non-nil) incoming face ("+bad+"): when it is sent to the management thread's internal face the frame carries no IncomingFaceId and InternalTransport.Receive dereferences nil")
 	}
+	// ---- R17.19 faces/query lists a face whose scheme matches at EITHER end: with a UriScheme
+	// filter, a face whose local URI has that scheme is kept whatever the remote URI's scheme
+	// is, and the other way round (NFD FaceQueryFilter). Decided as reachability of the
+	// 'keep' effect from an edge asserting the match at one end, with the edges asserting a
+	// match at the other end cut.
+	if q := c.Fn("R17.19", "fw/mgmt", "FaceModule", "query"); q != nil {
+		var keep ssa.Instruction
+		core.InstrsDeep(q, func(in ssa.Instruction) {
+			if cl, ok := isBuiltinCall(in, "append"); ok && keep == nil && core.InLoop(cl.Block()) {
+				keep = in
+			}
+		})
+		schemeOf := func(v ssa.Value, end string) bool {
+			cl, ok := core.Strip(v).(*ssa.Call)
+			if !ok {
+				return false
+			}
+			id, okID := core.Callee(&cl.Call)
+			if !okID || id.Name != "Scheme" {
+				return false
+			}
+			r, _ := core.CallArgs(&cl.Call)
+			rc, ok := core.Strip(r).(*ssa.Call)
+			if !ok {
+				return false
+			}
+			rid, okR := core.Callee(&rc.Call)
+			return okR && rid.Name == end
+		}
+		isFilter := func(v ssa.Value) bool {
+			_, path := core.FieldPath(core.DerefOnce(v))
+			if len(path) == 0 {
+				_, path = core.FieldPath(v)
+			}
+			return len(path) > 0 && path[len(path)-1] == "UriScheme"
+		}
+		mk := func(end string) *core.Atom {
+			return &core.Atom{Name: "scheme == " + end + ".Scheme()", Match: func(cond ssa.Value) (int, int) {
+				op, x, y, ok := core.Cmp(cond)
+				if !ok || (op != token.EQL && op != token.NEQ) {
+					return 0, 0
+				}
+				if (isFilter(x) && schemeOf(y, end)) || (isFilter(y) && schemeOf(x, end)) {
+					return core.Iff(op == token.EQL)
+				}
+				return 0, 0
+			}}
+		}
+		eqL, eqR := mk("LocalURI"), mk("RemoteURI")
+		if keep == nil {
+			c.Und("R17.19", "query-scheme-matches-either-end", p.Pos(q.Pos()), "the loop that collects the matching faces was not found")
+		} else {
+			bad := ""
+			nEdges := 0
+			for _, pair := range [][2]*core.Atom{{eqL, eqR}, {eqR, eqL}} {
+				cut, _ := core.CutEdges(q, pos(pair[1]))
+				reaches := false
+				for _, ef := range core.EdgeFactsDeep(q, pair[0]) {
+					if !ef.Holds || ef.E.From.Parent() != keep.Parent() {
+						continue
+					}
+					nEdges++
+					// within the same iteration: the walk stops at the loop header
+					hdr := loopHeader(keep.Block())
+					if core.ReachInstrFrom(core.Point{Block: ef.E.To, Idx: 0}, keep, cut, func(x ssa.Instruction) bool {
+						return hdr != nil && x.Block() == hdr && len(hdr.Instrs) > 0 && x == hdr.Instrs[0]
+					}) != nil {
+						reaches = true
+					}
+				}
+				if !reaches {
+					bad = pair[0].Name
+				}
+			}
+			c.Decide(bad == "" && nEdges >= 2, "R17.19", "query-scheme-matches-either-end", c.Pos(keep), "a face is kept when the filter's scheme matches its local URI alone, or its remote URI alone", "faces/query with a UriScheme filter drops a face although "+bad+" (the face is only kept when the other end matches too): faces whose two ends have different schemes — every Unix application face, fd:// remote and unix:// local — are never listed for their scheme, so the dataset is not the current state")
+		}
+	}
+
 	// ---- R17.18 (shared with C10 R10.17) "never crashes": an MTU that management accepts never
 	// leads to a division by zero in the send path
 	c.Import(C10, "R17.18", "the send path divides by the payload room without having established that it is positive: an MTU that faces/create or faces/update accepts, with a PIT token that uses up the room, crashes the forwarder", 1, func(k string) bool {
